@@ -103,7 +103,7 @@ def native_run(root, name, values, log, release):
     return p, None
 
 
-def judge(p, desc):
+def judge(p, desc, strict=False):
     """did the native run fail the way the solver said?"""
     out = p.stdout
     if "KV_REPLAY: assumption violated" in out or "ran out of recorded values" in out:
@@ -115,7 +115,10 @@ def judge(p, desc):
     if key and key in out:
         return True, "same assertion failed natively"
     if "panicked at" in out:
-        return True, "native run panicked: " + [l for l in out.splitlines() if "panicked at" in l][0][:200]
+        line = [l for l in out.splitlines() if "panicked at" in l][0]
+        if strict and "kverif" in line:
+            return False, "a different harness assertion failed natively (harness uses stubs of avt functions): " + line[:160]
+        return True, "native run panicked: " + line[:200]
     return False, "native run exited %s without a recognisable panic" % p.returncode
 
 
@@ -132,7 +135,8 @@ def replay_counterexample(root, rec, r, sel, log, prop):
         p, err = native_run(root, inst["name"], values, log, release)
         if p is None:
             return {"reproduced": False, "why": err, "values": values}
-        ok, why = judge(p, r["desc"])
+        strict = any(not o.startswith("core::") for o, _ in inst.get("stubs", []))
+        ok, why = judge(p, r["desc"], strict)
         outcome["release" if release else "dev"] = {"reproduced": ok, "why": why, "tail": p.stdout[-1500:]}
     reproduced = outcome["dev"]["reproduced"] or outcome["release"]["reproduced"]
     rep = {
